@@ -6,7 +6,7 @@ from common import sh2
 LEVEL = "proof"
 # further theorem files (HEVC); each is rebuilt, re-checked and axiom-audited like C15Theorems.v
 EXTRA_THEOREM_FILES = ["C15HevcTheorems.v", "C15HevcSliceTheorems.v", "C15HevcConfTheorems.v", "C15InitTheorems.v",
-                       "C15TieTheorems.v", "C15Hevc2Theorems.v"]
+                       "C15TieTheorems.v", "C15Hevc2Theorems.v", "C15Avc2Theorems.v"]
 MANIFEST = {
     "technique": "Coq proof (parser model applied to an independent serialiser of the standard's syntax) + differential "
                  "correspondence: the extracted serialiser generates NAL units / configuration records from random field values, "
